@@ -20,6 +20,17 @@ pub fn get_carry_i128(base2k: usize, x: i128, digit: i128) -> i128 {
     (x.wrapping_sub(digit)) >> base2k
 }
 
+/// Moves `carry` up by one limb that holds no data: `carry <- carry_out(0 + carry)`.
+///
+/// Used when a shift moves the input entirely below the last limb of the output:
+/// the limbs in between are empty, but the carry still has to travel through them.
+#[inline(always)]
+pub fn znx_normalize_carry_through_empty_limb_ref(base2k: usize, carry: &mut [i64]) {
+    carry.iter_mut().for_each(|c| {
+        *c = get_carry_i64(base2k, *c, get_digit_i64(base2k, *c));
+    });
+}
+
 #[inline(always)]
 pub fn znx_normalize_first_step_carry_only_ref(base2k: usize, lsh: usize, x: &[i64], carry: &mut [i64]) {
     #[cfg(debug_assertions)]
